@@ -234,6 +234,18 @@ func c10LiveProp(t *testing.T, k *verifkit.Kit) func(c c10Live) error {
 			if returned && retErr != nil {
 				return verifkit.Violf("C10/recoverable-fault-fatal", "recoverable fault %s ended Run with %v\n%s", c.Fault, retErr, tl)
 			}
+			// "the task is then re-established": the new connection is used - an advertiser announces itself on it (the
+			// initial RA) unless the stop came first
+			if !c.Monitor && redial >= 0 && len(conns) > 1 && !(c.StopNS > 0 && stopAt <= redial+bound) && len(c.DialFail) == 0 {
+				lastConn := conns[len(conns)-1].id
+				used := false
+				for _, x := range writes {
+					used = used || (x.Conn == lastConn && x.Dst == vkAllNodes)
+				}
+				if !used {
+					return verifkit.Violf("C10/re-established-task-silent", "recoverable fault %s at %v: connection %d was dialled at %v, but no RA was ever sent on it\n%s", c.Fault, fault, lastConn, redial, tl)
+				}
+			}
 		case "fatal":
 			if lastUse > fault+bound {
 				return verifkit.Violf("C10/old-connection-still-used", "fault at %v, old connection used at %v (bound %v)\n%s", fault, lastUse, fault+bound, tl)
@@ -245,6 +257,10 @@ func c10LiveProp(t *testing.T, k *verifkit.Kit) func(c c10Live) error {
 				}
 				if retErr == nil {
 					return verifkit.Violf("C10/fatal-fault-swallowed", "fatal fault %s at %v: Run returned nil\n%s", c.Fault, fault, tl)
+				}
+				// "ends with a reported error": the error that was the cause, not some other one
+				if strings.HasSuffix(c.Fault, "-other") && !strings.Contains(retErr.Error(), vkErrOther.Error()) {
+					return verifkit.Violf("C10/fatal-fault-misreported", "fatal fault %s (%v) at %v: Run returned %v, which does not name it\n%s", c.Fault, vkErrOther, fault, retErr, tl)
 				}
 				if len(conns) != 1 {
 					return verifkit.Violf("C10/fatal-fault-redialed", "fatal fault %s led to a re-dial\n%s", c.Fault, tl)
